@@ -54,19 +54,23 @@ func parseUrlPath(pathStr string, m meta.Definition) ([]*Path, error) {
 		if !hasDefs {
 			return nil, fmt.Errorf("%w. cannot select %s inside %s", fc.BadRequestError, ident, p.Meta.Ident())
 		}
-		seg.Meta = meta.Find(parentMeta, ident)
-		if seg.Meta == nil {
-			// check for fully qualified ident
-			if colon := strings.IndexRune(ident, ':'); colon > 0 {
-				module := ident[:colon]
-				ident = ident[colon+1:]
-				potential := meta.Find(parentMeta, ident)
-				if potential != nil {
-					if meta.DefiningModule(potential).Ident() == module {
-						seg.Meta = potential
-					}
-				}
-			}
+		// a step names one data node (or action or notification) of this level, optionally
+		// qualified with the name of the module the node belongs to (RFC8040 Sec 3.5.3).
+		// meta.Find reads more into a name - schema paths, prefixes, choices and cases -
+		// none of which is a step of a data path.
+		name, module := ident, ""
+		if colon := strings.IndexRune(ident, ':'); colon > 0 {
+			module, name = ident[:colon], ident[colon+1:]
+		}
+		if !strings.ContainsAny(name, "/:") {
+			seg.Meta = parentMeta.Definition(name)
+		}
+		switch seg.Meta.(type) {
+		case *meta.Choice, *meta.ChoiceCase:
+			seg.Meta = nil
+		}
+		if seg.Meta != nil && module != "" && meta.DefiningModule(seg.Meta).Ident() != module {
+			seg.Meta = nil
 		}
 		if seg.Meta == nil {
 			return nil, fmt.Errorf("%w. %s not found in %s", fc.NotFoundError, ident, p.Meta.Ident())
